@@ -259,10 +259,13 @@ def chain_files(root_syn, chain, code, place='top', dyn=False, filler=True):
     return files
 
 
-def root_configs(root_syn, spellings):
-    """every (root, cfg) pair for a root template of class root_syn"""
+def root_configs(root_syn, spellings, deep=False):
+    """every (root, cfg) pair for a root template of class root_syn (deep: the include chain is
+    longer than one step; the source kinds that differ only in how the text is read, and the
+    letter-case variants, are then left to the shallow chains)"""
     out = []
-    srcs = ['str', 'bytes', 'file'] + (['stream'] if root_syn == 'markup' else [])
+    core = core_spellings()
+    srcs = ['str'] + ([] if deep else ['bytes', 'file']) + (['stream'] if root_syn == 'markup' else [])
     for src in srcs:
         for t in REQS:
             out.append(({'kind': 'direct', 'src': src, 'own_loader': True},
@@ -279,7 +282,7 @@ def root_configs(root_syn, spellings):
     plugin = {'markup': 'markup', 'newtext': 'newtext', 'oldtext': 'text'}[root_syn]
     for kind in ('plugin-file', 'plugin-string'):
         for o in spellings:
-            for ar in (False, True):
+            for ar in ((False, True) if o in core else (False,)):
                 out.append(({'kind': kind, 'plugin': plugin},
                             {'tmpl': 'dflt', 'loader': 'dflt', 'opt': o, 'auto_reload': ar}))
     return out
@@ -292,10 +295,12 @@ def enumerate_cases(maxdepth=3):
     full, core = all_spellings(), core_spellings()
     for syn in CLASSES:
         for ch in chains(syn, maxdepth):
-            spell = full if len(ch) <= 1 else core
             for code in (True, False):
+                # every letter-case variant with a code block at depth <= 1; the code-free twin
+                # (rendered twice, flags as given and forced on) under the core spellings
+                spell = full if (len(ch) <= 1 and code) else core
                 files = chain_files(syn, ch, code)
-                for root, cfg in root_configs(syn, spell):
+                for root, cfg in root_configs(syn, spell, deep=len(ch) > 1):
                     cases.append({'cfg': cfg, 'root': root, 'files': files})
     # placements of the code block (wrapped in directives, match templates, function bodies) and
     # run-time (dynamic) includes, at depth <= 1, under the core configurations
